@@ -1569,6 +1569,48 @@ def c19(ctx):
                     return True
             return False
         selftest(ctx, "AppRelayTrace", "AppRelayTrace.cfg", csegs[0], [("responses-swapped", swapped), ("completed-request-listed", listed_after_done), ("stored-under-other-backend", wrong_backend)])
+    # the response cache in front of the relay (AppCache.tla): sequences of GET / HEAD / POST exchanges of two users on
+    # one URL, enumerated by TLC; a response that was not produced for the request is one an earlier GET of the same
+    # user for the same URL was answered with
+    import random
+    tlc_must_hold(ctx, "AppCache", "AppCache_MC.cfg")
+    tlc_must_fail(ctx, "AppCache", "AppCache_Attack_CacheHead.cfg")
+    gen = tlc_generate(ctx, "AppCacheGen", "AppCacheGen.cfg", "cache_sequences.json")
+    seqs = json.load(open(gen))["sequences"]
+    seqs.sort(key=lambda q: json.dumps(q, sort_keys=True))
+    if ctx.tier != "thorough":
+        must = [q for q in seqs if [o["m"] for o in q] in (["HEAD", "GET"], ["HEAD", "GET", "GET"], ["GET", "GET", "GET"], ["GET", "HEAD", "GET"], ["POST", "GET", "GET"])
+                and not any(o["cc"] for o in q) and all(o["u"] == "u1" for o in q)]
+        rest = [q for q in seqs if q not in must]
+        seqs = must + random.Random(ctx.seed * 31 + 5).sample(rest, 20)
+    qpath = os.path.join(ctx.scratch, "cache_cases.json")
+    json.dump({"sequences": seqs}, open(qpath, "w"))
+    qev, _ = drive(ctx, "appcache", cases=qpath, timeout=1500)
+    qsegs = split_segments(qev)
+    qfails = validate_segments(ctx, "AppCacheTrace", "AppCacheTrace.cfg", qsegs, batch=100)
+    for seg, idx, out, inv in qfails:
+        e = seg[min(max(idx, 0), len(seg) - 1)]
+        report_failure(ctx, "appcache:%s" % seg[0].get("sig"), "exchanges %s on one URL: step #%d %s is not allowed by AppCache (a response that is neither the request's own nor one an earlier GET of the same user for this URL was answered with)" % (
+            seg[0].get("sig"), idx, json.dumps({k: v for k, v in e.items() if k not in ("pid", "seq", "src")}, sort_keys=True)[:300]), seg=seg, tlc_out=out[-3000:])
+    hits = sum(1 for e in qev if e.get("ev") == "CacheStep" and not e.get("reached"))
+    ctx.extra["cache_sequences"] = {"run": len(seqs), "answered_from_cache": hits}
+    if qsegs and not qfails:
+        def foreign(seg):
+            for e in seg:
+                if e.get("ev") == "CacheStep" and e.get("reached"):
+                    e["got"] = e["own"] + 1000
+                    return True
+            return False
+
+        def head_cached(seg):
+            st = [e for e in seg if e.get("ev") == "CacheStep"]
+            if len(st) < 2:
+                return False
+            st[1]["reached"], st[1]["got"], st[1]["method"], st[0]["method"] = False, st[0]["own"], "GET", "HEAD"
+            return True
+        selftest(ctx, "AppCacheTrace", "AppCacheTrace.cfg", qsegs[0], [("foreign-response", foreign), ("get-answered-with-a-head-response", head_cached)])
+        if hits == 0:
+            raise Inconclusive("no exchange was answered from the cache: the cache sequences did not exercise it")
     relays = [s for s in ok if s[-1].get("ev") == "RelayCase"]
     blobs = [s for s in ok if s[-1].get("ev") == "BlobCase" and s[-1]["n"] >= 1000000]
     if relays and blobs:
